@@ -114,6 +114,14 @@ func (a *ScriptAction) Execute(ctx context.Context, _ chain.Rules, mu state.Muta
 // ParseScriptAction parses `.` | steps[@start:end], steps = `r:k`,`w:k:v`,`d:k`,`x` joined by `,`.
 func ParseScriptAction(s string) (*ScriptAction, error) {
 	a := &ScriptAction{CU: 1, Start: -1, End: -1, Declared: state.Keys{}}
+	if i := strings.IndexByte(s, '^'); i >= 0 { // `^<compute units>`
+		cu, err := strconv.ParseUint(s[i+1:], 10, 64)
+		if err != nil {
+			return nil, err
+		}
+		a.CU = cu
+		s = s[:i]
+	}
 	if i := strings.IndexByte(s, '@'); i >= 0 {
 		se := strings.Split(s[i+1:], ":")
 		if len(se) != 2 {
@@ -289,6 +297,12 @@ func Class(msg string) string {
 		return "memo"
 	case strings.Contains(msg, "failed to calculate tx units"):
 		return "units"
+	case strings.Contains(msg, "invalid units consumed"):
+		return "blockunits"
+	case strings.Contains(msg, "duplicate transaction"):
+		return "duplicate"
+	case strings.Contains(msg, "test auth verification error"):
+		return "badauth"
 	case strings.Contains(msg, "overflow"):
 		return "overflow"
 	case strings.Contains(msg, "invalid chain ID"):
@@ -458,6 +472,9 @@ func (c *Chain) Process(ctx context.Context, env *Env, bh chain.BalanceHandler, 
 	}
 	tsv := c.TS.NewView(stateKeys, c.Storage(stateKeys), len(stateKeys))
 	if err := tx.PreExecute(ctx, fm, bh, env.Rules, tsv, now); err != nil {
+		if _, uerr := tx.Units(bh, env.Rules); uerr != nil && errors.Is(err, uerr) {
+			err = fmt.Errorf("failed to calculate tx units: %w", err)
+		}
 		return TxOutcome{Stage: "pre", Err: err}
 	}
 	res, err := tx.Execute(ctx, fm, bh, env.Rules, tsv, now)
